@@ -312,6 +312,15 @@ func c10R2(c *Ctx) {
 				for _, r := range referrersOf(u) {
 					switch y := r.(type) {
 					case *ssa.BinOp, *ssa.DebugRef, *ssa.If:
+					case *ssa.Lookup:
+						// a read-only table: a lookup of a scalar element hands out a copy, not the map
+						if y.X != ssa.Value(u) {
+							bad = append(bad, "used as a key in "+shortName(fn)+" at "+p.InstrPos(y))
+						} else if m, ok := elem.Underlying().(*types.Map); ok {
+							if _, scalar := m.Elem().Underlying().(*types.Basic); !scalar {
+								bad = append(bad, "an element (a reference) is read out in "+shortName(fn)+" at "+p.InstrPos(y))
+							}
+						}
 					case *ssa.Return:
 						// the accessor of a lazily built prototype returns it: covered by R3 (cells of
 						// the prototype tables never escape a lookup)
